@@ -35,6 +35,10 @@ pub struct Case {
     pub rounding: bool,
     pub dec: String,
     pub thou: String,
+    /// every OTHER kind's configuration is set to the opposite of this one (other digit count,
+    /// both flags flipped): a kind is rendered with its own configuration only
+    #[serde(default, skip_serializing_if = "std::ops::Not::not")]
+    pub cross: bool,
 }
 
 /// the value grid of a digit count, built once per (digits, tier) and shared (the generator runs
@@ -212,6 +216,35 @@ impl Prop for C07 {
         let mut f = Vec::new();
         let digit_set: Vec<u8> = tier.pick(vec![0, 1, 2, 3, 6, 9], (0..=9).collect());
         let seps: Vec<(&'static str, &'static str)> = tier.pick(vec![(",", "."), (".", ",")], vec![(",", "."), (".", ","), (".", ""), (",", " ")]);
+        f.push(Family::new(
+            "cross-configuration",
+            Mode::Full,
+            "numbers, percentages, money (usd, jpy, kwd) and user-unit quantities with digits [0, 2, 4] x zero-fraction removal on/off x rounding on/off, while the configuration of every OTHER kind is set to the opposite (9 - digits, both flags flipped), x values [12.3456, 1999.996, 0.005, 9.999, -2.5, 1000]: each kind is rendered with its own configuration only",
+            move |ch| {
+                let kind = match ch.choose(6) {
+                    0 => Kind::Number,
+                    1 => Kind::Percent,
+                    2 => Kind::Money("usd".into()),
+                    3 => Kind::Money("jpy".into()),
+                    4 => Kind::Money("kwd".into()),
+                    _ => Kind::UserUnit,
+                };
+                let d = *ch.pick(&[0u8, 2, 4]);
+                let remove = ch.flag();
+                let rounding = !ch.flag();
+                let x = *ch.pick(&[12.3456, 1999.996, 0.005, 9.999, -2.5, 1000.0]);
+                let digits = match &kind {
+                    Kind::Money(code) => {
+                        if d != 2 {
+                            return None; // money takes its digit count from the currency
+                        }
+                        spec().currencies[code.as_str()].digits as u8
+                    }
+                    _ => d,
+                };
+                Some(Case { kind, x, digits, remove_zero_fract: remove, rounding, dec: ",".into(), thou: ".".into(), cross: true })
+            },
+        ));
         for (name, is_pct) in [("number", false), ("percent", true)] {
             let (digit_set, seps) = (digit_set.clone(), seps.clone());
             f.push(Family::new(
@@ -225,7 +258,7 @@ impl Prop for C07 {
                     let (dec, thou) = *ch.pick(&seps);
                     let g = grid(d, tier);
                     let x = *ch.pick(&g);
-                    Some(Case { kind: if is_pct { Kind::Percent } else { Kind::Number }, x, digits: d, remove_zero_fract: remove, rounding, dec: dec.into(), thou: thou.into() })
+                    Some(Case { kind: if is_pct { Kind::Percent } else { Kind::Number }, x, digits: d, remove_zero_fract: remove, rounding, dec: dec.into(), thou: thou.into(), cross: false })
                 },
             ));
         }
@@ -255,7 +288,7 @@ impl Prop for C07 {
                     let (dec, thou) = *ch.pick(&seps);
                     let g = grid(d, tier);
                     let x = *ch.pick(&g);
-                    Some(Case { kind: Kind::Money(code), x, digits: d, remove_zero_fract: remove, rounding, dec: dec.into(), thou: thou.into() })
+                    Some(Case { kind: Kind::Money(code), x, digits: d, remove_zero_fract: remove, rounding, dec: dec.into(), thou: thou.into(), cross: false })
                 },
             ));
         }
@@ -272,7 +305,7 @@ impl Prop for C07 {
                     let code = ch.pick(&all).clone();
                     let d = spec().currencies[&code].digits;
                     let x = *ch.pick(&[0.0, 1.0, 1234.56, -2469.5, 0.005, 999.995]);
-                    Some(Case { kind: Kind::Money(code), x, digits: d, remove_zero_fract: false, rounding: true, dec: ",".into(), thou: ".".into() })
+                    Some(Case { kind: Kind::Money(code), x, digits: d, remove_zero_fract: false, rounding: true, dec: ",".into(), thou: ".".into(), cross: false })
                 },
             ));
         }
@@ -299,7 +332,7 @@ impl Prop for C07 {
                 if matches!(kind, Kind::Money(_)) && dec != "," && dec != "." {
                     return None;
                 }
-                Some(Case { kind, x, digits, remove_zero_fract: remove, rounding: true, dec: dec.into(), thou: thou.into() })
+                Some(Case { kind, x, digits, remove_zero_fract: remove, rounding: true, dec: dec.into(), thou: thou.into(), cross: false })
             },
         ));
         f.push(Family::new(
@@ -325,7 +358,7 @@ impl Prop for C07 {
                 if dec == thou {
                     return None; // identical separators: unspecified
                 }
-                Some(Case { kind: Kind::SetterOrder(seq), x, digits: 2, remove_zero_fract: true, rounding: true, dec, thou })
+                Some(Case { kind: Kind::SetterOrder(seq), x, digits: 2, remove_zero_fract: true, rounding: true, dec, thou, cross: false })
             },
         ));
         {
@@ -339,7 +372,7 @@ impl Prop for C07 {
                     let (dec, thou) = *ch.pick(&seps);
                     let g = grid(2, tier);
                     let x = *ch.pick(&g);
-                    Some(Case { kind: Kind::Unit(word.into(), pre.into(), post.into()), x, digits: 2, remove_zero_fract: true, rounding: true, dec: dec.into(), thou: thou.into() })
+                    Some(Case { kind: Kind::Unit(word.into(), pre.into(), post.into()), x, digits: 2, remove_zero_fract: true, rounding: true, dec: dec.into(), thou: thou.into(), cross: false })
                 },
             ));
         }
@@ -356,7 +389,7 @@ impl Prop for C07 {
                     let (dec, thou) = *ch.pick(&seps);
                     let g = grid(digits, Tier::Quick);
                     let x = *ch.pick(&g);
-                    Some(Case { kind: Kind::UserUnit, x, digits, remove_zero_fract, rounding, dec: dec.into(), thou: thou.into() })
+                    Some(Case { kind: Kind::UserUnit, x, digits, remove_zero_fract, rounding, dec: dec.into(), thou: thou.into(), cross: false })
                 },
             ));
         }
@@ -414,9 +447,24 @@ impl Prop for C07 {
             }
             Kind::SetterOrder(_) => unreachable!(),
         };
+        if c.cross {
+            let opp = (9 - c.digits.min(9), !c.remove_zero_fract, !c.rounding);
+            if !matches!(c.kind, Kind::Number) {
+                cfg.num = Some(opp);
+            }
+            if !matches!(c.kind, Kind::Percent) {
+                cfg.pct = Some(opp);
+            }
+            if !matches!(c.kind, Kind::Money(_)) {
+                cfg.money = Some((opp.1, opp.2));
+            }
+            if !matches!(c.kind, Kind::UserUnit) {
+                cfg.user_unit = Some(opp);
+            }
+        }
         let lc = LineCase::new(text.clone(), Expect::Unspecified, "format").with_cfg(cfg);
         let run = run_case(ctx, &lc);
-        let input = format!("{} digits={} remove={} rounding={} dec={:?} thou={:?}", text, c.digits, c.remove_zero_fract, c.rounding, c.dec, c.thou);
+        let input = format!("{} digits={} remove={} rounding={} dec={:?} thou={:?}{}", text, c.digits, c.remove_zero_fract, c.rounding, c.dec, c.thou, if c.cross { " others=opposite" } else { "" });
         let mut v = Verdict { input, class: "accepted", compared: true, expected: "well-formed, within half a unit of the last digit, correctly signed".into(), observed: run.brief(), evals: 1, ..Default::default() };
         let out = match &run {
             Run::Panic(p) => {
